@@ -34,6 +34,8 @@ pub struct Cell {
     pub oid: u64,
     /// Logical time of the last release (for the allocation policy).
     pub freed_at: u64,
+    /// The "destructor" of this object panics (C18: user code panicking inside the library).
+    pub panic_on_destroy: bool,
 }
 
 pub struct World {
@@ -71,6 +73,7 @@ pub fn init_world(nthreads: usize) {
             count: 0,
             oid: 0,
             freed_at: 0,
+            panic_on_destroy: false,
         });
     }
     *WORLD.lock().unwrap() = Some(World {
@@ -204,6 +207,12 @@ impl VPtr {
     pub fn addr(&self) -> usize {
         self.0
     }
+
+    /// The object's destructor will panic (once).
+    pub fn set_panic_on_destroy(&self) {
+        let k = cell_of_addr(self.0).expect("non-arena pointer");
+        with_world(|w| w.cells[k].panic_on_destroy = true);
+    }
 }
 
 impl Clone for VPtr {
@@ -238,6 +247,7 @@ impl Drop for VPtr {
             yield_point(me, Pending::Rc);
         }
         let k = cell_of_addr(self.0).expect("drop of a non-arena pointer");
+        let mut boom = false;
         let dead = with_world(|w| {
             if !w.cells[k].alive {
                 return true;
@@ -252,11 +262,19 @@ impl Drop for VPtr {
                 w.clock += 1;
                 w.cells[k].freed_at = w.clock;
                 w.log.push(format!(". DESTROY {} {}", self.0, w.cells[k].oid));
+                if w.cells[k].panic_on_destroy {
+                    w.cells[k].panic_on_destroy = false;
+                    w.log.push(format!(". DESTRUCTOR-PANIC {}", self.0));
+                    boom = true;
+                }
             }
             false
         });
         if dead {
             fault(format!("DeadDec {}", self.0));
+        }
+        if boom && !std::thread::panicking() {
+            panic!("harness: expected user panic in a destructor");
         }
     }
 }
